@@ -134,11 +134,18 @@ func c07ExpectString(style int, body string) (kind string, val string) {
 		}
 		return "val", v
 	case 2, 3:
-		// raw triple-quoted: specified when the body holds no adjacent quote
-		// characters and does not begin or end with one
+		// raw triple-quoted: any three consecutive quote characters (of either kind) end the literal, so
+		// the form is specified when the body holds no such run and does not end with a quote character
+		// (one or two quote characters right after the opening delimiter are content)
+		run := 0
 		for i := 0; i < len(body); i++ {
-			if isQ(body[i]) && (i == 0 || i == len(body)-1 || isQ(body[i+1])) {
-				return "unspec", ""
+			if isQ(body[i]) {
+				run++
+				if run >= 3 || i == len(body)-1 {
+					return "unspec", ""
+				}
+			} else {
+				run = 0
 			}
 		}
 		return "val", body
